@@ -99,14 +99,14 @@ fn rules_slice(this: &StyleData, handle: &Handle, result: &mut ComputedStyle)
             let (origin, ruleset) = origins[oi]; //@w
             let ghost base = *result; //@w
             for rule in itr: ruleset
-                invariant node_ok(*handle), same_seq2(itr.seq(), ruleset@), *result == rules_applied(base, ruleset@, origin, *handle, itr.index@), //@w
+                invariant node_ok(*handle), same_seq2(itr.seq(), ruleset@), *result == rules_applied(base, ruleset@, origin, *handle, itr.index@), //@w @C19 @C20 #every_matching_rule_of_every_origin_takes_part
             {
                 let ghost rbase = *result; //@w
                 let ghost ri = itr.index@; //@w
                 assert(*rule == ruleset@[ri]); //@w
                 if rule.selector.matches(handle) {
                     for style in its: rule.styles.iter()
-                        invariant same_seq2(its.seq(), rule.styles@), *result == styles_applied(rbase, *rule, origin, its.index@), //@w
+                        invariant same_seq2(its.seq(), rule.styles@), *result == styles_applied(rbase, *rule, origin, its.index@), //@w @C19 @C20 #every_matching_rule_of_every_origin_takes_part
                     {
                         assert(*style == rule.styles@[its.index@]); //@w
                         merge_computed_style(
@@ -121,6 +121,113 @@ fn rules_slice(this: &StyleData, handle: &Handle, result: &mut ComputedStyle)
                 }
             }
         }
+} //@w
+//@end
+
+// ---- the element's own attributes (C19: inline declarations are author declarations of inline specificity, each with ITS importance;
+// the presentational colour attributes are never important) ------------------------------------------------------------------
+struct Colour { x: u8 }
+uninterp spec fn spec_inline() -> Specificity;
+impl Specificity { #[verifier::external_body] fn inline() -> (r: Specificity) ensures r == spec_inline() { unimplemented!() } }
+// parse_style_attribute(&attr.value).unwrap_or_default() / parser::parse_color_attribute(&attr.value) (nom grammar: trusted, A7)
+uninterp spec fn style_attr_decls(v: Seq<char>) -> Seq<StyleDecl>;
+uninterp spec fn colour_attr(v: Seq<char>) -> Option<Colour>;
+#[verifier::external_body] fn parse_style_attribute_or_default(v: &StrTendril) -> (r: Vec<StyleDecl>) ensures r@ == style_attr_decls(tendril_str(*v)) { unimplemented!() }
+#[verifier::external_body] fn parse_color_attribute(v: &StrTendril) -> (r: Result<Colour, ()>) ensures (r matches Ok(c) ==> colour_attr(tendril_str(*v)) == Some(c)), (r is Err ==> colour_attr(tendril_str(*v)) is None) { unimplemented!() }
+uninterp spec fn style_colour(c: Colour) -> Style;
+uninterp spec fn style_bgcolour(c: Colour) -> Style;
+#[verifier::external_body] fn mk_colour(c: Colour) -> (r: Style) ensures r == style_colour(c) { unimplemented!() }       // Style::Colour(colour.into())
+#[verifier::external_body] fn mk_bgcolour(c: Colour) -> (r: Style) ensures r == style_bgcolour(c) { unimplemented!() }   // Style::BgColour(colour.into())
+spec fn decls_applied(cs: ComputedStyle, decls: Seq<StyleDecl>, k: int) -> ComputedStyle decreases k {
+    if k <= 0 { cs } else { merged(decls_applied(cs, decls, k - 1), decls[k - 1].importance is Important, StyleOrigin::Author, spec_inline(), None, decls[k - 1]) }
+}
+spec fn attr_applied(cs: ComputedStyle, a: Attribute) -> ComputedStyle {
+    let v = tendril_str(a.value);
+    if local_name(a.name) == "style"@ { decls_applied(cs, style_attr_decls(v), style_attr_decls(v).len() as int) }
+    else if local_name(a.name) == "color"@ { match colour_attr(v) { Some(c) => merged(cs, false, StyleOrigin::Author, spec_inline(), None, StyleDecl { style: style_colour(c), importance: Importance::Default }), None => cs } }
+    else if local_name(a.name) == "bgcolor"@ { match colour_attr(v) { Some(c) => merged(cs, false, StyleOrigin::Author, spec_inline(), None, StyleDecl { style: style_bgcolour(c), importance: Importance::Default }), None => cs } }
+    else { cs }
+}
+spec fn attrs_applied(cs: ComputedStyle, attrs: Seq<Attribute>, k: int) -> ComputedStyle decreases k {
+    if k <= 0 { cs } else { attr_applied(attrs_applied(cs, attrs, k - 1), attrs[k - 1]) }
+}
+
+//@slice src/css.rs :: impl StyleData :: fn computed_style :: /if let Element \{ attrs, \.\. \} = &handle\.data \{/ .. /(?m)^        \}\n\n        result\n/
+//@name inline_slice
+//@auto C01 C19
+//@sub /for attr in borrowed\.iter\(\)/ ==> for attr in ita: borrowed.iter()
+//@sub /&attr\.name\.local == "style"/ ==> local_is(&attr.name, "style")
+//@sub /&\*attr\.name\.local == "color"/ ==> local_is(&attr.name, "color")
+//@sub /&\*attr\.name\.local == "bgcolor"/ ==> local_is(&attr.name, "bgcolor")
+//@sub /parse_style_attribute\(&attr\.value\)\.unwrap_or_default\(\)/ ==> parse_style_attribute_or_default(&attr.value)
+//@sub /for style in rules/ ==> for style in itd: rules
+//@sub * /parser::parse_color_attribute\(/ ==> parse_color_attribute(
+//@sub * /Self::merge_computed_style\(/ ==> merge_computed_style(
+//@sub * /&mut result,/ ==> &mut *result,
+//@sub /style\.importance == Importance::Important/ ==> is_important(&style)
+//@sub /Style::Colour\(colour\.into\(\)\)/ ==> mk_colour(colour)
+//@sub /Style::BgColour\(colour\.into\(\)\)/ ==> mk_bgcolour(colour)
+fn inline_slice(handle: &Handle, result: &mut ComputedStyle) //@w[
+    ensures
+        // every declaration of the style attribute takes part as an author declaration of inline specificity with its own importance;
+        // color / bgcolor attributes as unimportant ones; attributes are taken in document order; nothing else changes the style
+        (handle.data matches NodeData::Element { attrs, .. } ==> *final(result) == attrs_applied(*old(result), attrs.val()@, attrs.val()@.len() as int)), //@w @C19 #inline_declarations_keep_their_importance
+        !(handle.data is Element) ==> *final(result) == *old(result), //@w @C19 #only_elements_have_inline_style
+{ //@w]
+            if let Element { attrs, .. } = &handle.data {
+                let borrowed = attrs.borrow();
+                for attr in ita: borrowed.iter()
+                    invariant same_seq2(ita.seq(), borrowed@), *borrowed == attrs.val(), *result == attrs_applied(*old(result), borrowed@, ita.index@), //@w @C19 #inline_declarations_keep_their_importance
+                {
+                    let ghost abase = *result; //@w
+                    assert(*attr == borrowed@[ita.index@]); //@w
+                    proof { reveal_strlit("style"); reveal_strlit("color"); reveal_strlit("bgcolor"); } //@w
+                    if local_is(&attr.name, "style") {
+                        let rules = parse_style_attribute_or_default(&attr.value);
+                        for style in itd: rules
+                            invariant itd.seq() == rules@, rules@ == style_attr_decls(tendril_str(attr.value)), *result == decls_applied(abase, rules@, itd.index@), //@w @C19 #inline_declarations_keep_their_importance
+                        {
+                            assert(style == rules@[itd.index@]); //@w
+                            merge_computed_style(
+                                &mut *result,
+                                is_important(&style),
+                                StyleOrigin::Author,
+                                Specificity::inline(),
+                                None,
+                                &style,
+                            );
+                        }
+                    } else if local_is(&attr.name, "color") {
+                        if let Ok(colour) = parse_color_attribute(&attr.value) {
+                            merge_computed_style(
+                                &mut *result,
+                                false,
+                                StyleOrigin::Author,
+                                Specificity::inline(),
+                                None,
+                                &StyleDecl {
+                                    style: mk_colour(colour),
+                                    importance: Importance::Default,
+                                },
+                            );
+                        }
+                    } else if local_is(&attr.name, "bgcolor") {
+                        if let Ok(colour) = parse_color_attribute(&attr.value) {
+                            merge_computed_style(
+                                &mut *result,
+                                false,
+                                StyleOrigin::Author,
+                                Specificity::inline(),
+                                None,
+                                &StyleDecl {
+                                    style: mk_bgcolour(colour),
+                                    importance: Importance::Default,
+                                },
+                            );
+                        }
+                    }
+                }
+            }
 } //@w
 //@end
 } // verus!
